@@ -466,7 +466,7 @@ def diff_streams(lines, a, b):
 
 def decide_stream(res, *, module, theorems, stream, harness_name, lines, oracle, nontrivial,
                   harness_kw=None, stateful=False, compare=None, what='', thorough_leanchecker=True,
-                  canon_impl=None, extra_obligation_problems=()):
+                  canon_impl=None, extra_obligation_problems=(), segment_start=None):
     """The verdict logic of DESIGN.md section 1.
     oracle(line, impl_out) -> (ok: bool|None, klass: str|None)  evaluates the PROPERTY on the
       implementation's own output (None = not applicable to this line); klass names a known-finding class.
@@ -523,7 +523,14 @@ def decide_stream(res, *, module, theorems, stream, harness_name, lines, oracle,
             else:
                 concrete += 1
                 if concrete <= 5:
-                    res.violation(l, 'property oracle fails on the implementation: %s -> %s%s' % (l[:200], impl[i][:200], (' (model: %s)' % model[i][:200]) if model else ''))
+                    rtxt = l
+                    if stateful:
+                        seg = segment_start or (lambda x: x.startswith(('open', 'new')))
+                        j = i
+                        while j > 0 and not seg(lines[j]):
+                            j -= 1
+                        rtxt = '\n'.join(lines[j:i + 1])
+                    res.violation(rtxt, 'property oracle fails on the implementation: %s -> %s%s' % (l[:200], impl[i][:200], (' (model: %s)' % model[i][:200]) if model else ''))
         if model is not None and not cmp(l, impl[i], model[i]):
             if not (ok is False):
                 mism.append(i)
